@@ -13,6 +13,7 @@ from vf.worker import call
 
 PROP = "C20"
 N = 4
+TECHNIQUE = "runtime contracts with shadow state: exports remember the source structure, imports are compared with it"
 RULE = ("eps-NFA / PDA / FST objects whose values are JSON-representable (ints, strings incl. blanks, 'starting_0', "
         "'INITIAL_STACK_HIDDEN'; isolated declared states, final states without transitions, several start states, "
         "parallel edges, multi-symbol pushes and outputs): the graph produced by to_networkx() is remembered with the "
